@@ -21,10 +21,22 @@ PROPS = {
         'design_ref': 'DESIGN.md §5 K2, §6 C02',
     },
     'C03': {
-        'verus': ['program_lines', 'program_state'],
+        'verus': ['program_lines', 'program_state', 'data_cursor', 'variables'],
         'kani': ['arrays', 'operators'],
         'level': 'proof',
         'design_ref': 'DESIGN.md §6 C03',
+    },
+    'C05': {
+        'verus': ['source_map'],
+        'kani': [],
+        'level': 'proof',
+        'design_ref': 'DESIGN.md §5 U5, §6 C05',
+    },
+    'C12': {
+        'verus': ['line_cruncher'],
+        'kani': [],
+        'level': 'proof',
+        'design_ref': 'DESIGN.md §5 U4/K5, §6 C12',
     },
     'C07': {
         'verus': ['program_state'],
@@ -51,7 +63,7 @@ PROPS = {
         'design_ref': 'DESIGN.md §6 C11',
     },
     'C16': {
-        'verus': ['program_state'],
+        'verus': ['program_state', 'variables'],
         'kani': ['arrays', 'operators'],
         'level': 'proof',
         'design_ref': 'DESIGN.md §6 C16',
@@ -74,6 +86,8 @@ UNDECIDED = {
     'C02': ["precedence / associativity / parentheses (shape of the eight mutually recursive evaluator tiers over &mut Interpreter): undecided - CBMC cannot execute a 5-token expression through Interpreter, Verus cannot type the evaluators", "ABS / INT (closures in evaluate_function_call), ^ values (powf), PRINT number formatting (f64 Display): undecided", "* and / values beyond the stated small-integer domain: the SAT back end does not decide two 64-bit float multiplier circuits in budget"],
     'C01': ["tokenizer / DATA parser / statement and expression evaluators: panic-freedom undecided", "native stack exhaustion by nested parentheses: no stack model in either tool", "get_line_with_pointer_caret (fmt): undecided"],
     'C03': ["statement dispatch, IF/ELSE token skipping, FOR/NEXT arithmetic in doubles (end_loop), DIM/array statements: undecided", "the IF..THEN GOSUB..ELSE defect named in the property lives in statement.rs and cannot be seen by this check"],
+    'C05': ["SourceFileAnalyzer::run (enumerate/zip, tokenizer) - where the two known panics are - is outside both tools: this check cannot report them", "that registered token ranges lie within the line on char boundaries is C13's claim (not applicable)", "per-line token lists, symbol-warning mapping with unwrap: undecided"],
+    'C12': ["identifier scanning with keyword lookahead, numerals, DATA items (String::from_utf8, str::parse, trim) and the composition in Tokenizer::next: undecided, including the `DATA \"a\" :` defect"],
     'C07': ["that STOP and the host break both reach Program::break_at_current_location (statement.rs:28, interpreter.rs:115) is read, not proved"],
     'C09': ["single-pass scans in statement.rs:90-106,343-353 rest on the cursor contracts plus an unverified reading of three loops"],
     'C10': ["RUN arm of maybe_process_command (fresh Variables/Arrays; pending reply not cleared) is outside Verus"],
